@@ -71,6 +71,9 @@ type recorder struct {
 	waitFor string
 	seen    chan struct{}
 	closed  int
+	// a sink that is slow once: the call that records message number stallAt (counted from 1) takes stall longer
+	stallAt int
+	stall   time.Duration
 }
 
 func newRecorder() *recorder { return &recorder{} }
@@ -99,7 +102,11 @@ func (r *recorder) add(isErr bool, args []interface{}) {
 		close(r.seen)
 		r.seen = nil
 	}
+	slow := r.stall > 0 && len(r.events) == r.stallAt
 	r.mu.Unlock()
+	if slow {
+		time.Sleep(r.stall)
+	}
 }
 
 func (r *recorder) Log(output ...interface{})   { r.add(false, output) }
